@@ -171,8 +171,10 @@ type SecureChannel struct {
 	handlersMu sync.Mutex
 
 	// chunks maintains a temporary list of chunks for a given request ID
-	chunks   map[uint32][]*MessageChunk
-	chunksMu sync.Mutex
+	chunks map[uint32][]*MessageChunk
+	// chunkCount is the number of chunks held in chunks over all request IDs
+	chunkCount int
+	chunksMu   sync.Mutex
 
 	// openingInstance is a temporary var that allows the dispatcher know how to handle a open channel request
 	// note: we only allow a single "open" request in flight at any point in time. The mutex is held for the entire
@@ -394,6 +396,7 @@ func (s *SecureChannel) Receive(ctx context.Context) *MessageBody {
 
 			switch hdr.ChunkType {
 			case 'A':
+				s.chunkCount -= len(s.chunks[reqID])
 				delete(s.chunks, reqID)
 				s.chunksMu.Unlock()
 
@@ -407,9 +410,15 @@ func (s *SecureChannel) Receive(ctx context.Context) *MessageBody {
 				return &MessageBody{RequestID: reqID, Err: ua.StatusCode(msga.ErrorCode)}
 
 			case 'C':
+				// The peer chooses the request IDs, so the limit applies to the
+				// chunks buffered for all incomplete messages together. Otherwise
+				// a peer can make the channel hold MaxChunkCount chunks for each
+				// of an unlimited number of request IDs.
 				s.chunks[reqID] = append(s.chunks[reqID], chunk)
+				s.chunkCount++
 				// a limit of zero means that there is no limit
-				if n, max := len(s.chunks[reqID]), s.c.MaxChunkCount(); max > 0 && uint32(n) > max {
+				if n, max := s.chunkCount, s.c.MaxChunkCount(); max > 0 && uint32(n) > max {
+					s.chunkCount -= len(s.chunks[reqID])
 					delete(s.chunks, reqID)
 					s.chunksMu.Unlock()
 					msg.Err = errors.Errorf("too many chunks: %d > %d", n, max)
@@ -421,6 +430,7 @@ func (s *SecureChannel) Receive(ctx context.Context) *MessageBody {
 
 			// merge chunks
 			all := append(s.chunks[reqID], chunk)
+			s.chunkCount -= len(s.chunks[reqID])
 			delete(s.chunks, reqID)
 
 			s.chunksMu.Unlock()
